@@ -98,6 +98,8 @@ def run_job(job):
                 if p.get("address_space_bounds") is not None:
                     p["address_space_bounds"] = tuple(
                         p["address_space_bounds"])
+                if job.get("seed_type") == "np.int64":
+                    p["seed"] = np.int64(p["seed"])
                 scen = configs.guarded_generate(nasim.generate_scenario,
                                                 **p)
             else:
